@@ -246,6 +246,18 @@ def gen_value(rng, kind):
         return gen_frame(rng)
     if kind in ('generated', 'lazy'):
         return gen_items(rng)
+    if kind == 'listnp' and rng.random() < 0.25:
+        # arrays of one common shape but different dtypes (a writer must not merge them into one array)
+        import numpy as np
+        shape = rng.choice([(3,), (2, 2), (1,), (4, 1)])
+        n = int(np.prod(shape))
+        out = []
+        for dt in rng.sample(['bool', 'int64', 'float32', 'uint8', '<U2', 'float64', 'int8', 'complex64', '<U9'], rng.randint(2, 5)):
+            if dt.startswith('<U'):
+                out.append(np.array([rng.choice(['a', 'bc', 'é']) for _ in range(n)], dtype=dt).reshape(shape))
+            else:
+                out.append(np.array([rng.randrange(0, 2) for _ in range(n)]).astype(dt).reshape(shape))
+        return out
     if kind == 'listnp':
         return [gen_array(rng, allow_big=False) for _ in range(rng.choice([0, 1, 2, 3, 11, 12, 25, 30]))]
     if kind == 'dir':
